@@ -32,6 +32,9 @@ type Op struct {
 func (o Op) String() string {
 	d := []string{"A>B", "B>A"}[o.Dir]
 	if o.K == "S" {
+		if o.Sid != 0 {
+			return fmt.Sprintf("S(%s,%d,sid=%d)", d, o.N, o.Sid)
+		}
 		return fmt.Sprintf("S(%s,%d)", d, o.N)
 	}
 	return fmt.Sprintf("W(%s,%s,sid=%d,ts=%#x,len=%s)", d, o.Kind, o.Sid, o.Ts, o.Class)
@@ -171,11 +174,11 @@ func runSession1(ops []Op, o sessOpts, wantStates bool) (res sessResult) {
 		if op.K == "S" {
 			pk := rtmp.NewSetChunkSize()
 			pk.ChunkSize = op.N
-			if err := w.WritePacket(pk, 0); err != nil {
+			if err := w.WritePacket(pk, int(op.Sid)); err != nil {
 				res.Key, res.What = "write-error", fmt.Sprintf("op %d %v: WritePacket(SetChunkSize) failed: %v", i, op, err)
 				return
 			}
-			wantType, wantSid, wantTs = 1, 0, 0
+			wantType, wantSid, wantTs = 1, op.Sid, 0
 			wantPayload = []byte{byte(op.N >> 24), byte(op.N >> 16), byte(op.N >> 8), byte(op.N)}
 		} else {
 			wantType, wantSid, wantTs = kindType[op.Kind], op.Sid, op.Ts
@@ -312,6 +315,10 @@ func alphaF1() []Op {
 	for d := 0; d < 2; d++ {
 		for _, n := range chunkSizes {
 			a = append(a, Op{K: "S", Dir: d, N: n})
+		}
+		// the packet API lets the caller pick the message stream id of the announcement
+		for _, n := range []uint32{2, 4096} {
+			a = append(a, Op{K: "S", Dir: d, N: n, Sid: 1})
 		}
 		for _, c := range classes6 {
 			a = append(a, Op{K: "W", Dir: d, Kind: "video", Sid: 1, Ts: 0, Class: c})
